@@ -17,7 +17,7 @@ import itertools
 from ..core import AnalysisError
 from ..pkgenv import Package
 from ..refmodel import RefBlackBox, RefCircuit, build, free_nodes, simulate
-from ..semantic import GATES2, assignments, deep_circuits, two_level_circuits
+from ..semantic import guarded, GATES2, assignments, deep_circuits, two_level_circuits
 
 FILE = "tx.py"
 
@@ -28,6 +28,7 @@ def retyped(c, node, t):
     return d
 
 
+@guarded
 def check_miter(m, c0, c1, tied, compared):
     """-> None or counterexample dict"""
     if m.inputs() != set(tied):
